@@ -2,7 +2,8 @@
    Only statements, each closed by [exact], each followed by Print Assumptions.
    The object is the labelled transition system of Cesium/Relay.v: [run (init chans cap) ls st]
    ranges over ALL interleavings of driver operations (writers of every mode and authority,
-   streamers that subscribe / re-subscribe / pause / close at arbitrary moments, DB close)
+   writers driven by their own goroutine concurrently with the driver, streamers that
+   subscribe / re-subscribe / pause / close at arbitrary moments, DB close)
    with the hidden steps of the relay (dequeue-and-deliver, timeout-drop for a consumer that
    is not ready) and of the streamers (apply a queued request, disconnect), for every channel
    table and relay capacity. *)
@@ -41,14 +42,16 @@ Proof. intros chans cap. exact (inbox_items false false chans cap). Qed.
 Print Assumptions C20_received_from_streaming_writes.
 
 (* (2b) Never a series for a channel the writer was not authorized on: the only step that
-   extends the history of pushed frames is a Write of an open, stream-enabled writer, and
+   extends the history of pushed frames is a Write of an open, stream-enabled writer (called
+   by the driver, or — hidden step — by the writer's background goroutine), and
    every key of the pushed frame is a written key that the writer holds, is authorized on
    at that moment (control state of that very state), and is not held back by the
    index-group rule. *)
 Theorem C20_pushes_only_authorized_series : forall chans cap ls st l st' f,
   run (init chans cap) ls st -> lstep st l st' -> st_hist st' = st_hist st ++ [f] ->
-  exists w ks bad wr,
-    l = Vis (Write w ks bad) /\ open_writer_of st w = Some wr /\ streams (w_mode wr) = true /\
+  exists w ks wr,
+    ((exists bad, l = Vis (Write w ks bad)) \/ l = Tau) /\
+    open_writer_of st w = Some wr /\ streams (w_mode wr) = true /\
     f_w f = w /\ f_orig f = ks /\
     forall k, In k (f_keys f) ->
       In k ks /\ owned wr k = true /\ authorized st w wr k = true /\ excluded st w wr ks k = false.
@@ -110,6 +113,11 @@ Theorem C20_no_writer_deadlock_partial : forall chans cap ls st w ks bad,
 Proof. exact reachable_write_never_deadlocks. Qed.
 Print Assumptions C20_no_writer_deadlock_partial.
 
+Theorem C20_background_writer_progress_partial : forall chans cap ls st w,
+  run (init chans cap) ls st -> driver_blocked st = false -> vstep st (Join w) = [] -> hsucc st <> [].
+Proof. exact reachable_join_never_deadlocks. Qed.
+Print Assumptions C20_background_writer_progress_partial.
+
 Theorem C20_streamer_close_progress_partial : forall chans cap ls st,
   run (init chans cap) ls st -> driver_blocked st = true -> hsucc st <> [].
 Proof. exact reachable_driver_never_stuck. Qed.
@@ -122,7 +130,7 @@ Print Assumptions C20_hidden_steps_terminate.
 
 Theorem C20_other_operations_never_block : forall st o,
   driver_blocked st = false ->
-  match o with Write _ _ _ | Sync => True | _ => vstep st o <> [] end.
+  match o with Write _ _ _ | Sync | Join _ => True | _ => vstep st o <> [] end.
 Proof. exact other_ops_never_block. Qed.
 Print Assumptions C20_other_operations_never_block.
 
